@@ -66,11 +66,19 @@ theorem sample_wf {o : Options} {p : String} {s : Nat} {ps : List (String × SVa
   obtain ⟨hK, hN, hL⟩ := sample_find (fun k l t hf => (find_wf hw hf).1) (FWF_nodup hw) h
   refine FWF_of_find hN ?_
   intro k l t hf
-  refine ⟨hL k l t hf, ?_⟩
   have hk := hK k
   obtain ⟨r', _, _, hwr⟩ := keyT_cong (s' := s) (keyVals_cong hc k) (OWF_find hw k) (OWF_find hw k)
     (ORel_refl (OWF_find hw k)) Iff.rfl hk
-  exact hwr t (by rw [hf]; rfl)
+  refine ⟨hL k l t hf, hwr t (by rw [hf]; rfl), ?_⟩
+  rw [hf] at hk
+  refine keyT_name ?_ hk
+  intro t0 ht0
+  cases hf0 : fs.find k with
+  | none => rw [hf0] at ht0; cases ht0
+  | some lt =>
+    obtain ⟨l0, t1⟩ := lt
+    rw [hf0] at ht0; cases ht0
+    exact find_name hw hf0
 
 theorem cong_struct {o : Options} {x : SVal} {mode : StructMode} {ps : List (String × SVal)}
     (hx : StructLike o x mode ps) (hc : ∀ kv ∈ ps, Cong o kv.2) : Cong o x := by
